@@ -17,6 +17,7 @@ extern "C" {
 #include "crc.h"
 #include "crc64.h"
 #include "mem_routines.h"
+uint32_t adler32_base(uint32_t adler32, uint8_t *start, uint64_t length); // igzip/adler32_base.c, exported, no public prototype
 }
 
 namespace workload {
@@ -55,6 +56,8 @@ inline bool zlib_raw_inflate(const uint8_t *in, size_t n, int wbits, std::vector
 // C15 only: also fold the compressed bytes of the dictionary jobs into the digest (the same implementation must give the same bytes cold or warm,
 // serial or threaded); C16 compares different implementations and must leave this off
 static bool g_with_bytes = false;
+// C15 only: also run the exported portable C kernels (reentrancy of the code that non-SIMD CPUs and assembly-less builds execute)
+static bool g_with_base = false;
 
 // returns a failure description or "" ; digest receives the observable results
 inline std::string run(uint64_t seed, Digest &dg, bool light = false) {
@@ -116,6 +119,30 @@ inline std::string run(uint64_t seed, Digest &dg, bool light = false) {
 		int rc = gf_vect_mul(320, tbl32.data() + 32, ms, md);
 		for (int i = 0; i < 320; i++) if (md[i] != refgf::mul(a[1], ms[i])) WFAIL("gf_vect_mul byte %d", i);
 		dg.add(rc); dg.add(dp.data(), 320); dg.add(md, 320);
+		if (g_with_base) {
+			// the portable C kernels (what CPUs without the SIMD levels and assembly-less builds run) under the same regime: in C15 the library's
+			// writable pages are read-only while this runs, so a kernel that keeps anything in a static (a cached table, a scratch buffer) faults
+			std::vector<uint8_t> bmul(320), bdp(320), bmad(320, 0);
+			int brc = gf_vect_mul_base(320, tbl32.data() + 32, ms, bmul.data());
+			if (brc != rc || memcmp(bmul.data(), md, 320)) WFAIL("gf_vect_mul_base != gf_vect_mul");
+			gf_vect_dot_prod_base(320, k, tbl32.data(), sp, bdp.data());
+			if (bdp != dp) WFAIL("gf_vect_dot_prod_base != gf_vect_dot_prod");
+			for (int j = 0; j < k; j++) gf_vect_mad_base(320, k, j, tbl32.data(), sp[j], bmad.data());
+			if (bmad != dp) WFAIL("gf_vect_mad_base accumulation != gf_vect_dot_prod");
+			std::vector<std::vector<uint8_t>> bpar(rows, std::vector<uint8_t>(len)), bupd(rows, std::vector<uint8_t>(len, 0));
+			uint8_t *bp[rows], *bu[rows];
+			for (int r = 0; r < rows; r++) { bp[r] = bpar[r].data(); bu[r] = bupd[r].data(); }
+			ec_encode_data_base((int) len, k, rows, tbl32.data(), sp, bp);
+			for (int j = 0; j < k; j++) ec_encode_data_update_base((int) len, k, rows, j, tbl32.data(), sp[j], bu);
+			for (int r = 0; r < rows; r++) if (memcmp(bp[r], rp[r], len) || memcmp(bu[r], rp[r], len)) WFAIL("ec_encode_data_base / ec_encode_data_update_base row %d", r);
+			uint64_t v;
+			v = crc32_ieee_base(0x12345678, d, 777); if (v != refcrc::fast(refcrc::IEEE).run(0x12345678, d, 777)) WFAIL("crc32_ieee_base"); dg.add(v);
+			v = crc32_gzip_refl_base(0x12345678, d, 777); if (v != refcrc::fast(refcrc::GZIP).run(0x12345678, d, 777)) WFAIL("crc32_gzip_refl_base"); dg.add(v);
+			v = crc32_iscsi_base(d, 777, 0x12345678); if (v != refcrc::fast(refcrc::ISCSI).run(0x12345678, d, 777)) WFAIL("crc32_iscsi_base"); dg.add(v);
+			v = crc16_t10dif_base(0x1234, d, 777); if (v != refcrc::fast(refcrc::T10DIF).run(0x1234, d, 777)) WFAIL("crc16_t10dif_base"); dg.add(v);
+			v = crc64_ecma_refl_base(0x123456789abcdefull, d, 777); if (v != refcrc::fast(refcrc::ECMA_REFL).run(0x123456789abcdefull, d, 777)) WFAIL("crc64_ecma_refl_base"); dg.add(v);
+			v = adler32_base(1, d, 777); if (v != refcrc::adler(1, d, 777)) WFAIL("adler32_base"); dg.add(v);
+		}
 	}
 	// --- raid
 	{
